@@ -370,9 +370,22 @@ def r5(ctx, R):
             R.undecided("C13.R5", p.short, "split guarded by a `;` test on the same text", loc(p, c), "guard not recognised")
 
 
+def r6(ctx, R):
+    R.rule("C13.R6", "a statement means the same after a `;` as on a line of its own: its label is stripped on every path into the labelled-DO closer", floor=1, confirmed=1)
+    from .c14 import label_provenance, parse_label_sites
+
+    sites = parse_label_sites(ctx)
+    if sites is None:
+        R.undecided("C13.R6", "FortranFile.parse", "label stripping", "fortls:0", "strip_line_label / labelled-DO closer not found in the statement loop")
+        return
+    pf, st, label_var, closer = sites
+    label_provenance(ctx, R, "C13.R6", pf, closer, st, label_var)
+
+
 def run(ctx, R):
     r1(ctx, R)
     r2(ctx, R)
     r3(ctx, R)
     r4(ctx, R)
     r5(ctx, R)
+    r6(ctx, R)
